@@ -488,7 +488,8 @@ def main():
             while want == "race" and tries < 5 and v.get("class") != "violation":
                 v = run_case(bdir, case, outdir, "replay%d" % tries)  # see the note on race verdicts in main()
                 tries += 1
-            print(json.dumps(v, indent=1)[:6000])
+            txt = json.dumps(v, indent=1)
+            print(txt if len(txt) <= 9000 else txt[:6000] + "\n …[%d bytes]…\n" % (len(txt) - 9000) + txt[-3000:])
             if v.get("class") == "violation":
                 print("VIOLATION property=%s replay=%s" % (case["property"], os.path.abspath(a.replay)))
                 if want and v.get("sig") != want:
